@@ -12,7 +12,7 @@ LEVEL = 'exploration'
 RULE = ('histories of export / re-export (another object at an exported path) / unexport on DBusObjectHandler (recording '
         'connection) over a path pool built to contain the traps: / /a /a/b /a/bc /a/b/c /a/b/c/d /ab /a_b /b plus two '
         'never-exported paths; objects are of three classes (one interface; two interfaces incl. a non-emitting typed '
-        'property; a subclass that adds a property to the inherited interface and brings a second interface) with '
+        'property, and false in a boolean context through __len__; a subclass that adds a property to the inherited interface and brings a second interface) with '
         'readable, read-write and write-only properties assigned before export; a path that was unexported is exported '
         'again either with a fresh object or with the very instance that was there before. After EVERY step and for EVERY pool path three parsed messages are sent: an '
         'ordinary call, Introspect, GetManagedObjects. enum: all histories to 4 (quick) / 5 (thorough) steps over a '
@@ -41,7 +41,7 @@ class _Conn:
 
 
 def _make_class(variant):
-    """0: one interface; 1: two interfaces; 2: a subclass of 0 that adds a property to the *inherited* interface and
+    """0: one interface; 1: two interfaces, and the object is falsy (defines __len__ -> 0); 2: a subclass of 0 that adds a property to the *inherited* interface and
     brings a second interface of its own (one interface populated at two levels of the class hierarchy)."""
     from txdbus import interface as I
     from txdbus import objects as O
@@ -59,6 +59,7 @@ def _make_class(variant):
         ns['Num'] = O.DBusProperty('Num')
         ns['Quiet'] = O.DBusProperty('Quiet')
         ns['dbusInterfaces'] = [i1, i2]
+        ns['__len__'] = lambda self: 0      # an exported object may be an (empty) container: false in a boolean context
         return type('Tree1', (O.DBusObject,), ns)
     base = type('Tree2Base', (O.DBusObject,), base_ns)
     return type('Tree2', (base,), {'Late': O.DBusProperty('Late', 'org.verif.T1'), 'Num': O.DBusProperty('Num'),
